@@ -256,7 +256,16 @@ def gen_run(rng):
     return spec
 
 
+def run_plain(spec):
+    """the same solve call as run_recorded, without the Model recorder"""
+    return _solve(spec, record=False)[1]
+
+
 def run_recorded(spec):
+    return _solve(spec, record=True)
+
+
+def _solve(spec, record):
     import dfols
     A, b, kind = spec['A'], spec['b'], spec['kind']
 
@@ -288,14 +297,16 @@ def run_recorded(spec):
         kw['user_params']['func_tol.max_iters'] = 30
         hlit = '(Some (h_l1 %s))' % IO.flit(lam)
     np.random.seed(spec['seed'] % (2 ** 32))
-    with Recorder(hlit) as rec, warnings.catch_warnings(), np.errstate(all='ignore'):
+    import contextlib
+    rec = Recorder(hlit) if record else None
+    with (rec if record else contextlib.nullcontext()), warnings.catch_warnings(), np.errstate(all='ignore'):
         warnings.simplefilter('ignore')
         try:
             soln = dfols.solve(f, spec['x0'].copy(), **kw)
             out = dict(flag=int(soln.flag), nf=int(soln.nf), nruns=int(soln.nruns))
         except Exception as ex:
             out = dict(flag='raised %s' % type(ex).__name__, nf=0, nruns=0)
-    return rec.histories, out
+    return (rec.histories if record else []), out
 
 
 def hist_task(args):
